@@ -2,11 +2,25 @@ import Rooc.WireModel
 import Rooc.Ref
 import Rooc.Oracle
 import Rooc.Drv.C01
+import Rooc.Pipeline
+import Rooc.WireSolve
 namespace Rooc.Drv.C03
 open Rooc Sexp Sem
 
-/-- the compiler half of the pipeline is diffed through C01's requests (`linearize-full`). -/
-def handle (α : Type) [Arith α] [Wire α] : List Sexp → Sexp := Drv.C01.handle α
+/-- the compiler half of the pipeline is diffed through C01's requests (`linearize-full`); `solve-using` runs the model of
+`RoocSolver::solve_using(auto_solver)` after `transform` (`Pipeline.solveUsingAuto`) on microlp's raw answer for the
+compiled model: every arm of the error mapping and the returned `LpSolution`. -/
+def handle (α : Type) [Arith α] [Wire α] : List Sexp → Sexp
+  | [.atom "solve-using", m, tol, out] =>
+    match (Model.dec m : Option (Model α)), (decNumS tol : Option α), (SolverWrap.MlpOutcome.dec out : Option (SolverWrap.MlpOutcome α)) with
+    | some m, some tol, some out =>
+      match Pipeline.solveUsingAuto m tol Gen.boundsMaxSteps (fun _ => out) with
+      | .solved lm s => app "solved" [s.enc lm.vars]
+      | .linearization e => app "linearization" [Drv.C01.encErr e]
+      | .solver v => app "solver" [app "err" [.atom v]]
+      | .panic => app "panic" []
+    | _, _, _ => app "err" [.atom "decode"]
+  | args => Drv.C01.handle α args
 
 def decAssign : Sexp → Option (List (String × Rat))
   | .list (.atom "assign" :: ps) => optAll (ps.map fun
